@@ -66,8 +66,13 @@ inductive Ev
   | build (wid aid : Nat)
   /-- worker actor `aid` began handling job `id` -/
   | start (aid id key : Nat)
-  /-- discard handler called (`reported`) or job shed with no handler configured (ghost) -/
-  | discard (r : Reason) (id : Nat) (reported : Bool)
+  /-- op: a new discard handler (identity `h`) is installed through `UpdateSettings`, or removed -/
+  | handlerSet (h : Option Nat)
+  /-- ghost: the factory handled that request: from here on `h` is the installed discard handler -/
+  | installed (h : Option Nat)
+  /-- discard handler `h` called with the job (`some h`), or job shed with no handler configured
+  (`none`, ghost) -/
+  | discard (r : Reason) (id : Nat) (h : Option Nat)
   /-- acceptance port answered: `back = false` accepted (`None`), `true` handed back (`Some(job)`) -/
   | reply (id : Nat) (back : Bool)
   | hook (h : Hook)
@@ -105,7 +110,6 @@ structure Env where
   actors : List Actor
   log : List Ev
   now : Nat
-  hasHandler : Bool
   /-- pending supervision events at the factory (dead actor ids) -/
   sup : List Nat
   deriving Repr
@@ -121,6 +125,8 @@ structure WP where
   pending : List Nat := []
   draining : Bool := false
   disc : Option (Nat × Mode) := none
+  /-- the worker's own copy of the factory's discard handler (`WorkerProperties.discard_handler`) -/
+  handler : Option Nat := none
   deriving Repr
 
 structure Cfg where
@@ -136,6 +142,8 @@ inductive FMsg
   | finished (wid key : Nat)
   | adjust (n : Nat)
   | updateSettings (disc : Option (Option (Nat × Mode))) (n : Option Nat)
+  /-- `UpdateSettings` carrying a discard handler (`Some(None)` removes it) -/
+  | setHandler (h : Option Nat)
   | drainRequests
   | calculate
   | getQueueDepth | getNumActiveWorkers | getAvailableCapacity
@@ -152,6 +160,8 @@ structure W where
   rl : Option (LeakyBucket.Cfg × LeakyBucket.LB)
   queue : List Job
   disc : Option (Nat × Mode)
+  /-- `discard_handler`: identity of the factory's current handler -/
+  handler : Option Nat := none
   drain : Drain
   env : Env
   nextAid : Nat
@@ -186,8 +196,8 @@ def setFirstActor (a : Actor) : List Actor → List Actor
 
 def Env.setActor (e : Env) (a : Actor) : Env := { e with actors := setFirstActor a e.actors }
 
-/-- `handler.discard(reason, job)` if a handler is configured. -/
-def Env.discard (e : Env) (r : Reason) (j : Job) : Env := e.emit (.discard r j.id e.hasHandler)
+/-- `handler.discard(reason, job)` on the caller's handler `h` (if it has one). -/
+def Env.discard (e : Env) (h : Option Nat) (r : Reason) (j : Job) : Env := e.emit (.discard r j.id h)
 
 /-- `job.reject()`: answer the acceptance port with `Some(job)` if still unanswered. -/
 def Env.reject (e : Env) (j : Job) : Env := if j.port then e.emit (.reply j.id true) else e
@@ -259,14 +269,14 @@ def currInsert (c : List (Nat × Nat)) (k id : Nat) : List (Nat × Nat) :=
   if c.any (·.1 == k) then c.map (fun x => if x.1 == k then (k, id) else x) else c ++ [(k, id)]
 
 /-- `get_next_non_expired_job`: pops the queue head-first, discarding expired jobs (TtlExpired). -/
-def getNextNonExpired : List Job → List Nat → Env → Option Job × List Job × List Nat × Env
+def getNextNonExpired (h : Option Nat) : List Job → List Nat → Env → Option Job × List Job × List Nat × Env
   | [], pend, e => (none, [], pend, e)
   | j :: rest, pend, e =>
     if !j.expired e.now then (some j, rest, pend, e)
-    else getNextNonExpired rest (pend.erase j.key) (e.discard .ttlExpired j)
+    else getNextNonExpired h rest (pend.erase j.key) (e.discard h .ttlExpired j)
 
 def WP.getNext (p : WP) (e : Env) : Option Job × WP × Env :=
-  let (r, mq, pend, e) := getNextNonExpired p.mq p.pending e
+  let (r, mq, pend, e) := getNextNonExpired p.handler p.mq p.pending e
   (r, { p with mq := mq, pending := pend }, e)
 
 /-- `dispatch_job`: a failed hand-over to a closed worker keeps the job at the queue head. -/
@@ -281,7 +291,7 @@ def shedOldest (limit : Nat) : Nat → WP → Env → WP × Env
   | fuel + 1, p, e =>
     if p.mq.length > limit then
       match p.getNext e with
-      | (some d, p, e) => shedOldest limit fuel (p.untrack d.key) (e.discard .loadshed d)
+      | (some d, p, e) => shedOldest limit fuel (p.untrack d.key) (e.discard p.handler .loadshed d)
       | (none, p, e) => shedOldest limit fuel p e
     else (p, e)
 
@@ -305,7 +315,7 @@ def WP.enqueueAccepted (p : WP) (e : Env) (j : Job) : WP × Env :=
 
 /-- `enqueue_job` -/
 def WP.enqueueJob (p : WP) (e : Env) (j : Job) : WP × Env :=
-  if p.shedsNewest then (p, (e.discard .loadshed j).reject j)
+  if p.shedsNewest then (p, (e.discard p.handler .loadshed j).reject j)
   else (p.track j.key).enqueueAccepted (e.accept j) { j with port := false }
 
 /-- `worker_complete` -/
@@ -522,7 +532,7 @@ def W.dropExpiredHead : Nat → W → W
       if j.expired w.env.now then
         match qPopFront w.cfg w.queue with
         | some (j, q) =>
-          W.dropExpiredHead fuel { w with queue := q, env := (w.env.discard .ttlExpired j).reject j }
+          W.dropExpiredHead fuel { w with queue := q, env := (w.env.discard w.handler .ttlExpired j).reject j }
         | none => w
       else w
     | none => w
@@ -545,7 +555,7 @@ def W.routeLoop (hint : Option Nat) : Nat → W → W
           match w.routeMessage j (some worker) with
           | (.handled, w) => w
           | (.rateLimited, w) =>
-            W.routeLoop hint fuel { w with env := (w.env.discard .rateLimited j).reject j }
+            W.routeLoop hint fuel { w with env := (w.env.discard w.handler .rateLimited j).reject j }
           | (.backlog, w) => (w.emit .panicked).emit (.dropped j.id)
 
 def W.tryRouteNextActiveJob (w : W) (hint : Option Nat) : W :=
@@ -558,7 +568,7 @@ def W.shedQueueOldest (limit : Nat) : Nat → W → W
   | fuel + 1, w =>
     if w.queue.length > limit then
       match qDiscardOldest w.cfg w.queue with
-      | some (j, q) => W.shedQueueOldest limit fuel { w with queue := q, env := w.env.discard .loadshed j }
+      | some (j, q) => W.shedQueueOldest limit fuel { w with queue := q, env := w.env.discard w.handler .loadshed j }
       | none => W.shedQueueOldest limit fuel w
     else w
 
@@ -566,7 +576,7 @@ def W.maybeEnqueue (w : W) (j : Job) : W :=
   match w.disc with
   | some (limit, .newest) =>
     if discardable w.cfg j && decide (w.queue.length ≥ limit) then
-      { w with env := (w.env.discard .loadshed j).reject j }
+      { w with env := (w.env.discard w.handler .loadshed j).reject j }
     else { w with env := w.env.accept j, queue := w.queue ++ [{ j with port := false }] }
   | some (limit, .oldest) =>
     let w := { w with env := w.env.accept j, queue := w.queue ++ [{ j with port := false }] }
@@ -587,7 +597,7 @@ def W.growOne (w : W) (wid : Nat) : W :=
     let w := { w with
       nextAid := aid + 1
       env := w.env.spawn wid aid
-      pool := w.pool ++ [({ wid, actor := aid, disc := w.workerDiscard w.disc } : WP)]
+      pool := w.pool ++ [({ wid, actor := aid, disc := w.workerDiscard w.disc, handler := w.handler } : WP)]
       byActor := w.byActor ++ [(aid, wid)] }
     w.availChange wid true
 
@@ -643,13 +653,13 @@ def W.isDrained (w : W) : Bool × W :=
 
 /-- `dispatch` -/
 def W.dispatch (w : W) (j : Job) : W :=
-  if j.expired w.env.now then { w with env := (w.env.discard .ttlExpired j).reject j }
+  if j.expired w.env.now then { w with env := (w.env.discard w.handler .ttlExpired j).reject j }
   else if w.drain == .notDraining then
     match w.routeMessage j none with
     | (.handled, w) => w
-    | (.rateLimited, w) => { w with env := (w.env.discard .rateLimited j).reject j }
+    | (.rateLimited, w) => { w with env := (w.env.discard w.handler .rateLimited j).reject j }
     | (.backlog, w) => w.maybeEnqueue j
-  else { w with env := (w.env.discard .shutdown j).reject j }
+  else { w with env := (w.env.discard w.handler .shutdown j).reject j }
 
 /-- `worker_finished_job` -/
 def W.workerFinishedJob (w : W) (who key : Nat) : W :=
@@ -678,13 +688,17 @@ def W.removeExpired (w : W) : W :=
     let ex := expiredInOrder w.cfg w.env.now w.queue
     { w with
       queue := w.queue.filter (fun j => !j.expired w.env.now)
-      env := ex.foldl (fun e j => e.discard .ttlExpired j) w.env }
+      env := ex.foldl (fun e j => e.discard w.handler .ttlExpired j) w.env }
   else w
 
 /-- second half of `calculate_metrics` (after the capacity controller answered) -/
 def W.calcRest (w : W) : W :=
   let w := w.removeExpired
   { w with nextCalc := w.env.now + CALCULATE_FREQUENCY }
+
+/-- `update_settings`, discard handler: the factory's handler and every worker's copy are replaced -/
+def W.setHandler (w : W) (h : Option Nat) : W :=
+  { w with handler := h, pool := w.pool.map (fun p => { p with handler := h }), env := w.env.emit (.installed h) }
 
 /-- `update_settings` (discard settings and worker count) -/
 def W.updateSettings (w : W) (disc : Option (Option (Nat × Mode))) (n : Option Nat) : W :=
@@ -737,8 +751,8 @@ def W.handleSupervisorEvt (w : W) (who : Nat) : W :=
 
 /-- `post_stop`, remaining factory queue: Shutdown discards if a handler is configured,
 silently dropped otherwise -/
-def Env.dropQueued (e : Env) (j : Job) : Env :=
-  if e.hasHandler then e.discard .shutdown j else e.emit (.dropped j.id)
+def Env.dropQueued (h : Option Nat) (e : Env) (j : Job) : Env :=
+  if h.isSome then e.discard h .shutdown j else e.emit (.dropped j.id)
 
 /-- a message still in the factory's mailbox is dropped with it -/
 def Env.dropMsg (e : Env) : FMsg → Env
@@ -751,7 +765,7 @@ def Env.dropWorkerQueue (e : Env) (p : WP) : Env := p.mq.foldl (fun e j => e.emi
 /-- `post_stop` up to the point where it waits for the workers to exit: the remaining factory
 queue is discarded, the workers are told to stop. The factory's bookkeeping is dropped. -/
 def W.postStop (w : W) : W :=
-  let e := w.queue.foldl Env.dropQueued w.env
+  let e := w.queue.foldl (Env.dropQueued w.handler) w.env
   let e := w.pool.foldl Env.dropWorkerQueue e
   let e := w.pool.foldl (fun e p => e.stop p.actor) e
   { w with env := { e with sup := [] }, queue := [], stopped := true, pool := [], poolSize := 0
@@ -785,6 +799,7 @@ def W.handleMsg (w : W) : FMsg → W
   | .finished who key => w.workerFinishedJob who key
   | .adjust n => w.resizePool n
   | .updateSettings d n => w.updateSettings d n
+  | .setHandler h => w.setHandler h
   | .drainRequests => W.emit { w with drain := .draining } (.hook .draining)
   | .calculate =>
     if w.cfg.hasCC && w.armed then { w with armed := false, blocked := true }
@@ -852,6 +867,7 @@ inductive Op
   | resize (n : Nat)
   | settings (disc : Option (Option (Nat × Mode))) (n : Option Nat)
   | drain
+  | setHandler (h : Option Nat)
   | advance
   | block
   | release (n : Nat)
@@ -890,6 +906,7 @@ def W.applyOp (w : W) : Op → W
     let w := match n with | some n => w.emit (.requested n) | none => w
     w.send (.updateSettings d n)
   | .drain => (w.emit .drainReq).send .drainRequests
+  | .setHandler h => (w.emit (.handlerSet h)).send (.setHandler h)
   | .advance => w
   | .block => { w with armed := true }
   | .release n =>
@@ -951,7 +968,8 @@ def init (c : CaseCfg) : W :=
       let lc : LeakyBucket.Cfg := ⟨r.1, r.2.1, r.2.2.1, 10 ^ 40⟩
       (lc, LeakyBucket.new lc (some r.2.2.2) 0)
     queue := [], disc := c.disc, drain := .notDraining
-    env := { actors := [], log := [], now := 0, hasHandler := c.cfg.hasHandler, sup := [] }
+    handler := if c.cfg.hasHandler then some 0 else none
+    env := { actors := [], log := [], now := 0, sup := [] }
     nextAid := 0, stopSignal := false, stopped := false, inbox := [], blocked := false, armed := false
     nextCalc := CALCULATE_FREQUENCY, answers := [], lastWq := none }
   let w := w.growPool c.n   -- pre_start builds workers 0..n-1 exactly like grow_pool on an empty pool
